@@ -14,12 +14,18 @@ histories for a failing input and reports the violation either way).
 namespace SaoVerif
 
 theorem C14_decision_skeleton_as_modelled :
-    Generated.Skel.x_node_keeper_shard_pledge_management_go = Expected.Skel.x_node_keeper_shard_pledge_management_go ∧
-    Generated.Skel.x_market_keeper_pool_management_go = Expected.Skel.x_market_keeper_pool_management_go ∧
-    Generated.Skel.x_node_keeper_msg_server_add_vstorage_go = Expected.Skel.x_node_keeper_msg_server_add_vstorage_go ∧
-    Generated.Skel.x_node_keeper_msg_server_remove_vstorage_go = Expected.Skel.x_node_keeper_msg_server_remove_vstorage_go ∧
-    Generated.Skel.x_sao_keeper_msg_server_renew_go = Expected.Skel.x_sao_keeper_msg_server_renew_go ∧
-    Generated.Skel.x_sao_keeper_msg_server_complete_go = Expected.Skel.x_sao_keeper_msg_server_complete_go := by
+    [Generated.Skel.x_node_keeper_shard_pledge_management_go,
+     Generated.Skel.x_market_keeper_pool_management_go,
+     Generated.Skel.x_node_keeper_msg_server_add_vstorage_go,
+     Generated.Skel.x_node_keeper_msg_server_remove_vstorage_go,
+     Generated.Skel.x_sao_keeper_msg_server_renew_go,
+     Generated.Skel.x_sao_keeper_msg_server_complete_go] =
+    [Expected.Skel.x_node_keeper_shard_pledge_management_go,
+     Expected.Skel.x_market_keeper_pool_management_go,
+     Expected.Skel.x_node_keeper_msg_server_add_vstorage_go,
+     Expected.Skel.x_node_keeper_msg_server_remove_vstorage_go,
+     Expected.Skel.x_sao_keeper_msg_server_renew_go,
+     Expected.Skel.x_sao_keeper_msg_server_complete_go] := by
   decide +kernel
 
 end SaoVerif
